@@ -111,16 +111,20 @@ class PythonType(GenericType):
     def is_specialization_of(self, other):
         if not isinstance(other, PythonType):
             return False
-        try:
-            len(self.python_type)
-            len(other.python_type)
-        except Exception:
-            return (
-                issubclass(self.python_type, other.python_type)
-                and not issubclass(other.python_type, self.python_type)
-            )
-        else:
+        mine = self.python_type
+        theirs = other.python_type
+        if not isinstance(mine, tuple):
+            mine = (mine,)
+        if not isinstance(theirs, tuple):
+            theirs = (theirs,)
+        if len(mine) > 1 and len(theirs) > 1:
             return False
+        # one of the types may be given as a tuple of classes (e.g. Number):
+        # it is more specific when each of its classes fits the other type
+        return (
+            all(issubclass(t, theirs) for t in mine)
+            and not all(issubclass(t, mine) for t in theirs)
+        )
 
 
 class MappingRule(LazyParameterType, SmartType):
